@@ -258,8 +258,12 @@ def rule_b_len(ctx):
                 flows = True
                 old_len = [x for x in calls if x.tname == HBT + "len" and ctx.role(x.body, x.arg_path(0)) == OLD]
                 # .. or the length of the table an accessor of the split table hands out: self.old_table().map_or(0, |t| t.len())
-                from rules_size import _old_table_accessors, _yields_len_of_param
+                from rules_size import _old_table_accessors, _yields_len_of_param, _pending_len_fns
                 for x in calls:
+                    lcx = x.local_callee()
+                    if x.body is body and lcx is not None and lcx.path in _pending_len_fns(ctx) and is_self_s(ctx, body, x.arg_path(0)):
+                        old_len.append(x)        # `self.pending_moves()`: the old table's length, or 0 when there is none
+                        continue
                     if x.body is body and x.name in (OPT + "map_or", OPT + "map") and (x.closure_args() or x.fn_value_args()):
                         sd = body.source_def(x.args[0])
                         if sd is not None and sd[1] == "call":
